@@ -54,9 +54,9 @@ pub fn decode_response(buf: &[u8]) -> Result<Option<ResponseAdu>> {
             // to transmission errors, because the frame's bytes
             // have already been verified at the TCP level.
 
-            Response::try_from(pdu)
-                .map(Ok)
-                .or_else(|_| ExceptionResponse::try_from(pdu).map(Err))
+            ExceptionResponse::try_from(pdu)
+                .map(Err)
+                .or_else(|_| Response::try_from(pdu).map(Ok))
                 .map(ResponsePdu)
                 .map(|pdu| Some(ResponseAdu { hdr, pdu }))
                 .inspect_err(|&err| {
